@@ -32,6 +32,8 @@ import (
 //    that returns no error must give the decisions of one of the tables the text
 //    can denote (listed per shape; none for texts without meaning). Nothing is
 //    demanded about the error text, the "updated" flag or Export.
+// E. (c35_update_test.go) update of an existing row through setUser and through a
+//    second Import: all ordered pairs of rows and sequences of 2 updates.
 
 type c35yCounts struct {
 	clause [6]int64
@@ -56,8 +58,11 @@ func TestVerifC35YAML(t *testing.T) {
 	r.Rule("YAML unit: (A) the first unit's tables and (B) all tables of two user rows + the _default row (6 cells from the listed permissions) are written as YAML text by hand, " +
 		"loaded with the real YAMLACL.Import into a fresh ACL and built with ACL.setUser into another; every query of 5 users (both users, a user without row, the superuser, _default) x " +
 		"4 scopes (s, t, unrelated, _default) x the required levels must be decided identically and as the precedence rule says; (C) re-import of every one-cell neighbour; " +
-		"(D) malformed texts over 4 previous tables: rejected => decisions unchanged, accepted => decisions of a table the text denotes. Non-trivial = a table in which a query is " +
-		"decided by clause 2-4 or by a prohibit, or a malformed text")
+		"(D) malformed texts over 4 previous tables: rejected => decisions unchanged, accepted => decisions of a table the text denotes; " +
+		"(E) update of an existing row through ACL.setUser and through a second YAMLACL.Import: every ordered pair (R, R') of rows of 0-3 cells over {s, t, unrelated, _default} for 2-3 targets " +
+		"(whose row, which fixed other rows) and sequences of 2 updates over a smaller row alphabet with every combination of entry points: after every update the decisions are those of the " +
+		"requested table and 'updated' is returned exactly when the table changed. Non-trivial = a table in which a query is " +
+		"decided by clause 2-4 or by a prohibit, a malformed text, or an update that swaps scope names at equal row size")
 	r.Set("yaml_cell_values", perms)
 	r.Set("yaml_required_levels", requireds)
 	r.Set("yaml_queries_per_table", len(qs))
@@ -170,6 +175,9 @@ func TestVerifC35YAML(t *testing.T) {
 	if mine() {
 		c35yMalformed(r, qs)
 	}
+
+	// E: updates of an existing row, all pairs of rows and sequences of 2 updates (c35_update_test.go)
+	c35uUpdates(r, mine, qs)
 }
 
 func c35yRow(kv ...any) c35xRow {
